@@ -68,7 +68,7 @@ use tower::layer::util::Identity;
 use self::utils::{InactivityCheck, IntervalStream};
 use super::{
 	FrontToBack, IdKind, MiddlewareBatchResponse, MiddlewareMethodResponse, MiddlewareNotifResponse, RequestIdManager,
-	generate_batch_id_range, subscription_channel,
+	subscription_channel,
 };
 
 pub(crate) type Notification<'a> = jsonrpsee_types::Notification<'a, Option<Box<JsonRawValue>>>;
@@ -552,8 +552,7 @@ where
 	{
 		async {
 			let batch = batch.build()?;
-			let id = self.id_manager.next_request_id();
-			let id_range = generate_batch_id_range(id, batch.len() as u64)?;
+			let id_range = self.id_manager.next_request_id_range(batch.len() as u64)?;
 
 			let mut b = Batch::with_capacity(batch.len());
 
